@@ -15,8 +15,10 @@ def run(ctx):
     ctx.outside += ["more paths/contents than the pool", "md5 collisions", "real lexing of file contents (contents are identities)", "concurrent scans"]
     T = 300 if ctx.quick() else 2400
     jobs = [Job("c09.py", "h_step", {"pool": ["a.py", "d/a.py"], "ncont": 2}, T, 60, tag="2 paths x 2 contents", meta={"sigtag": "cache-step"}),
-            Job("c09.py", "h_read_report", {}, T, 30, tag="version guard of report/findings")]
+            Job("c09.py", "h_read_report", {}, T, 30, tag="version guard of report/findings"),
+            Job("c09.py", "h_step_altered", {"pool": ["a.py", "d/a.py"], "ncont": 2}, T, 60, tag="cache with an altered (inconsistent) entry", meta={"sigtag": "cache-step:altered"})]
     ctx.bounds = {"quick": "2 pool paths (one nested) x {absent, content 0, content 1} x cache {absent | per path: absent / analysis of content 0 / of content 1} x {same, other version}: all 162 states",
+                  "altered entries": "same states with the first cached entry altered: functions dropped ([] / {}) or line total changed - such a cache must not be reused",
                   "read_report": "cache file present/absent x version in {missing key, empty, other, running, running+space, 'v'+running}"}
     if ctx.quick():
         for t0 in (-1, 0, 1):
